@@ -39,7 +39,7 @@ impl FixedTransaction {
         raw_witness_set: &[u8],
         is_valid: bool,
     ) -> Result<FixedTransaction, JsError> {
-        let body = TransactionBody::from_bytes(raw_body.to_vec())?;
+        let body: TransactionBody = deserialize_whole(raw_body, "transaction body")?;
         let mut witness_set = FixedTxWitnessesSet::from_bytes(raw_witness_set.to_vec())?;
         let tx_hash = TransactionHash::from(blake2b256(raw_body));
 
@@ -68,10 +68,13 @@ impl FixedTransaction {
         raw_auxiliary_data: &[u8],
         is_valid: bool,
     ) -> Result<FixedTransaction, JsError> {
-        let body = TransactionBody::from_bytes(raw_body.to_vec())?;
+        let body: TransactionBody = deserialize_whole(raw_body, "transaction body")?;
         let mut witness_set = FixedTxWitnessesSet::from_bytes(raw_witness_set.to_vec())?;
         let tx_hash = TransactionHash::from(blake2b256(raw_body));
-        let auxiliary_data = Some(AuxiliaryData::from_bytes(raw_auxiliary_data.to_vec())?);
+        let auxiliary_data = Some(deserialize_whole::<AuxiliaryData>(
+            raw_auxiliary_data,
+            "auxiliary data",
+        )?);
 
         let tag_state =
             has_transaction_set_tag_internal(&body, Some(witness_set.tx_witnesses_set_ref()))?;
